@@ -43,10 +43,18 @@ def _bounds(fn):
     return found
 
 
-def _maps_digits(fn):
-    """does the body turn decimal digits into superscript characters? (char literal `⁰`…`⁹` in a match/closure)"""
+def _maps_digits(fn, crate=None):
+    """does the body turn decimal digits into superscript characters? (char literals `⁰`…`⁹` in a match/closure, or in
+    a const/static table of the crate that the body indexes)"""
     sup = set("⁰¹²³⁴⁵⁶⁷⁸⁹")
-    return sum(1 for x in walk(fn["body"]) if x.get("k") == "Lit" and isinstance(x.get("lit"), dict) and x["lit"].get("lk") == "char" and x["lit"].get("v") in sup) >= 9
+    bodies = [fn["body"]]
+    if crate is not None:
+        for x in walk(fn["body"]):
+            if x.get("k") == "Path" and x.get("res", {}).get("r") == "def" and str(x["res"].get("dk", "")).startswith(("Const", "Static", "AssocConst")):
+                t = crate.hir.get(x["res"].get("path", ""))
+                if t is not None and t.get("body") is not None:
+                    bodies.append(t["body"])
+    return sum(1 for b_ in bodies for x in walk(b_) if x.get("k") == "Lit" and isinstance(x.get("lit"), dict) and x["lit"].get("lk") == "char" and x["lit"].get("v") in sup) >= 9
 
 
 def rule_expsup(crate):
@@ -76,7 +84,7 @@ def rule_expsup(crate):
                 seen.add(c)
                 chain.append(crate.hir[c])
                 work.append(crate.hir[c])
-    mappers = [b for b in chain if _maps_digits(b)]
+    mappers = [b for b in chain if _maps_digits(b, crate)]
     if not mappers:
         out.error("anchor missing: no exponent formatter that maps digits to superscripts is reachable from BaseRepresentationFactor::fmt")
         return out
@@ -93,4 +101,81 @@ def rule_expsup(crate):
         m = mappers[0]
         out.violation(key, crate.file_of(m), m["line"], "types are printed through `%s`, which maps EVERY digit of an integer exponent to a superscript; the tokenizer reads a single superscript digit only (%s …): the inferred signature of `fn f(x) = x^10` is printed as `A¹⁰` and rejected when written back (likewise `x^2*y^3 + z^5` -> `A¹⁰ × B¹⁵`)" % (m["name"], " ".join(single[:4])))
     out.analysed = {"formatters_on_path": len(chain), "unicode_exponent_spellings": len(single)}
+    return out
+
+
+def rule_uexptab(crate):
+    """UEXPTAB — every UnicodeExponent lexeme the tokenizer can produce is one the parser's table reads.
+
+    Writer: Tokenizer::scan_single_token (single superscript digits, and `⁻` followed by a character accepted by
+    is_exponent_char).  Reader: Parser::unicode_exponent_to_int, a match on the lexeme whose fall-through arm is
+    `unreachable!()`.  A lexeme produced but not listed (`⁻⁰` after "completing" is_exponent_char with `⁰`) is an
+    internal panic for the input `2⁻⁰` — before, the tokenizer reported it as an unexpected character."""
+    out = RuleOut("UEXPTAB", "every unicode-exponent lexeme the tokenizer produces is listed in the parser's unicode_exponent_to_int (whose fall-through arm panics)")
+    tok = tokenizer_map(crate)
+    produced = set(k for k in tok if tok[k] == "UnicodeExponent")
+    # `⁻` + c for every c the predicate used in the `⁻` arm accepts (evaluated, not assumed)
+    from idchars import CharEval, Unknown
+
+    scan = crate.find_fn("tokenizer::Tokenizer::scan_single_token")
+    ce = CharEval(crate)
+    n_pred = 0
+    for m in walk(scan["body"]):
+        if m.get("k") != "Match" or str(m.get("src")) != "Normal" or crate.ty(peel(m["scrut"])) != "char":
+            continue
+        for a in m["arms"]:
+            subs = a["pat"]["pats"] if a["pat"].get("k") == "Or" else [a["pat"]]
+            if not any(sp.get("k") == "Lit" and sp["lit"].get("v") == "⁻" for sp in subs):
+                continue
+            if not any(x.get("k") == "Path" and x.get("res", {}).get("variant") == "UnicodeExponent" for x in walk(a["body"])):
+                continue
+            for x in walk(a["body"]):
+                if x.get("k") == "Path" and x.get("res", {}).get("r") == "def" and str(x["res"].get("dk", "")) == "Fn" and str(x["res"].get("path", "")).startswith("crate::tokenizer::"):
+                    pred = crate.hir.get(x["res"]["path"])
+                    if pred is None or len(pred.get("params", [])) != 1:
+                        continue
+                    n_pred += 1
+                    for ch in "⁰¹²³⁴⁵⁶⁷⁸⁹⁺⁼⁽⁾ⁿⁱ0123456789":
+                        try:
+                            v = ce.call(x["res"]["path"], ch)
+                        except Exception:
+                            v = Unknown
+                        if v is True:
+                            produced.add("⁻" + ch)
+    produced = sorted(produced)
+    try:
+        fn = crate.find_fn("parser::Parser::unicode_exponent_to_int")
+    except Exception:
+        fn = None
+    if fn is None or not produced:
+        out.error("anchor missing: Parser::unicode_exponent_to_int / UnicodeExponent spellings of the tokenizer")
+        return out
+    f = crate.file_of(fn)
+    read, panics, found = set(), False, False
+    for m in walk(fn["body"]):
+        if m.get("k") != "Match" or str(m.get("src")) != "Normal":
+            continue
+        lits = []
+        for a in m["arms"]:
+            subs = a["pat"]["pats"] if a["pat"].get("k") == "Or" else [a["pat"]]
+            ls = [sp["lit"]["v"] for sp in subs if sp.get("k") == "Lit" and sp["lit"].get("lk") == "str"]
+            if ls:
+                lits += ls
+            elif any(x.get("k") == "Call" and "panicking" in (callee(x) or "") for x in walk(a["body"])):
+                panics = True
+        if lits:
+            found = True
+            read |= set(lits)
+    if not found:
+        out.advisory("unicode-exponent:table", f, fn["line"], "unicode_exponent_to_int is not a literal table: rule not applicable")
+        return out
+    missing = [p for p in produced if p not in read]
+    if missing and panics:
+        out.violation("unicode-exponent:produced-not-read", f, fn["line"], "the tokenizer produces the UnicodeExponent lexeme(s) %s, which unicode_exponent_to_int does not list: its fall-through arm is unreachable!() — the input `2%s` aborts the interpreter with an internal panic" % (" ".join(missing), missing[0]))
+    else:
+        out.ok("unicode-exponent:produced-not-read", f, fn["line"], "all %d produced lexemes are listed%s" % (len(produced), "" if panics else " (and the fall-through arm does not panic)"))
+    out.analysed = {"produced": len(produced), "read": len(read), "negative_exponent_predicates": n_pred}
+    out.floor("produced", len(produced), 18)
+    if n_pred == 0:
+        out.advisory("unicode-exponent:negative-predicate", f, fn["line"], "the `⁻` arm of the tokenizer uses no named predicate: only the spellings of the token table were compared")
     return out
